@@ -13,6 +13,7 @@ for every reachable circuit; there is no bound on the number of blocks, inputs o
 -/
 import EdzedModel.Wiring
 import EdzedProofs.Wiring
+import EdzedModel.Gen.TranslatedSig
 
 namespace Edzed.Wiring
 
@@ -416,4 +417,146 @@ example : (finalize demo).2 = none ∧ (finalize demo).1.order = ["a", "s", "_no
     (finalize demo).1.kind "_not_s" = some (.c .not) := by
   decide
 
+/-! ### shape of the inputs: `check_signature` (called by `start()` of Not, Override, Compare and
+    of custom blocks) -/
+
+/-- `check_signature_accepts_iff`: the check passes exactly if the block is connected, the input
+    names are the expected ones and EVERY input has the expected shape: a single input where a
+    single input is expected, a group -- of a size within the bounds, 0 included -- where a group
+    is expected -/
+theorem check_signature_accepts_iff (c : Circ) (b : String) (esig : List (String × Expect)) :
+    checkSignature c b esig = .ok () ↔
+      ∃ bsig, inputSignature c b = .ok bsig ∧ sameKeys bsig esig = true ∧
+        ∀ p ∈ esig, ∃ v, bsig.lookup p.1 = some v ∧ p.2.accepts v := by
+  unfold checkSignature
+  cases hs : inputSignature c b with
+  | error e => simp
+  | ok bsig =>
+    simp only [Except.ok.injEq, exists_eq_left']
+    by_cases h1 : sigEq bsig esig = true
+    · simp only [h1, if_true, true_iff]
+      exact sigEq_sound h1
+    · simp only [h1, if_false, Bool.false_eq_true]
+      by_cases h2 : sameKeys bsig esig = true
+      · simp only [h2, Bool.not_true, Bool.false_eq_true, if_false, true_and]
+        constructor
+        · intro h p hp
+          split at h
+          · cases h
+          · next hany =>
+            simp only [List.any_eq_true, not_exists, not_and] at hany
+            have := hany p hp
+            cases hl : bsig.lookup p.1 with
+            | none => simp [hl] at this
+            | some v =>
+              simp only [hl, Bool.not_eq_true] at this
+              exact ⟨v, rfl, (valueDiff_false_iff _ _).mp this⟩
+        · intro h
+          split
+          · next hany =>
+            simp only [List.any_eq_true] at hany
+            obtain ⟨p, hp, hd⟩ := hany
+            obtain ⟨v, hv, ha⟩ := h p hp
+            simp only [hv] at hd
+            have := (valueDiff_false_iff _ _).mpr ha
+            rw [this] at hd; cases hd
+          · rfl
+      · simp [h2]
+
+/-- a mismatch is always refused with ValueError (an unconnected block with InvalidState) -/
+theorem check_signature_refuses (c : Circ) (b : String) (esig : List (String × Expect)) :
+    checkSignature c b esig = .ok () ∨ checkSignature c b esig = .error .valueError ∨
+    (c.inputs b = [] ∧ checkSignature c b esig = .error .invalidState) := by
+  unfold checkSignature inputSignature
+  split
+  · next e he =>
+    split at he
+    · next hi => cases he; exact Or.inr (Or.inr ⟨by simpa using hi, rfl⟩)
+    · cases he
+  · split
+    · exact Or.inl rfl
+    · split
+      · exact Or.inr (Or.inl rfl)
+      · split
+        · exact Or.inr (Or.inl rfl)
+        · exact Or.inl rfl
+
+/-- `empty_group_is_not_single`: a group of ANY size -- also the explicitly connected empty group
+    `name=()` -- where a single input is expected makes the check fail; so does a single input
+    where a group (exact size or range) is expected -/
+theorem empty_group_is_not_single (c : Circ) (b k : String) (esig : List (String × Expect))
+    (bsig : List (String × Option Nat)) (hs : inputSignature c b = .ok bsig) :
+    (∀ n, (k, Expect.single) ∈ esig → bsig.lookup k = some (some n) →
+        checkSignature c b esig = .error .valueError) ∧
+    (∀ e, e ≠ Expect.single → (k, e) ∈ esig → bsig.lookup k = some none →
+        checkSignature c b esig = .error .valueError) := by
+  have hne : c.inputs b ≠ [] := by
+    unfold inputSignature at hs
+    split at hs
+    · cases hs
+    · next h => simpa using h
+  have no_ok : ∀ e v, (k, e) ∈ esig → bsig.lookup k = some v → ¬ e.accepts v →
+      checkSignature c b esig = .error .valueError := by
+    intro e v he hl hna
+    rcases check_signature_refuses c b esig with h | h | ⟨h, _⟩
+    · obtain ⟨bs, h1, _, h3⟩ := (check_signature_accepts_iff c b esig).mp h
+      rw [hs] at h1; cases h1
+      obtain ⟨v', hv', ha⟩ := h3 (k, e) he
+      rw [hl] at hv'; cases hv'
+      exact absurd ha hna
+    · exact h
+    · exact absurd h hne
+  refine ⟨fun n he hl => no_ok _ _ he hl (by simp [Expect.accepts]), fun e hne' he hl => no_ok _ _ he hl ?_⟩
+  cases e with
+  | single => exact absurd rfl hne'
+  | exact n => simp [Expect.accepts]
+  | range lo hi => simp [Expect.accepts]
+  | malformed => simp [Expect.accepts]
+
+/-- what `start()` checks for the library blocks: `Not` needs exactly one unnamed input,
+    `Override` the two single inputs `input` and `override` -/
+theorem library_signatures :
+    expectedSig .not = some [("_", .exact 1)] ∧
+    expectedSig .ovr = some [("input", .single), ("override", .single)] ∧
+    ∀ esig, expectedSig (.sig esig) = some esig := ⟨rfl, rfl, fun _ => rfl⟩
+
+example : ∃ c : Circ, checkSignature c "b" [("input", .single), ("g", .range (some 0) (some 2))] = .ok () ∧
+    checkSignature c "b" [("input", .single), ("g", .single)] = .error .valueError :=
+  ⟨{ inputs := fun _ => [("input", .single (.name "x")), ("g", .group [])] }, by rfl, by rfl⟩
+
 end Edzed.Wiring
+
+/-! ### tie to the source by translation (tools/py2lean_sig.py regenerates `Gen.Tr.sigValueDiff` from
+    the inner helper `valuediff_msg` of `CBlock.check_signature`) -/
+namespace Edzed.TrTie
+open Edzed.Wiring
+
+/-- Python value of an expectation: `None` | int | `(cmin, cmax)`; a malformed one has none -/
+def encExpect : Expect → Option (Option (Nat ⊕ (Option Nat × Option Nat)))
+  | .single => some none
+  | .exact n => some (some (.inl n))
+  | .range lo hi => some (some (.inr (lo, hi)))
+  | .malformed => none
+
+/-- the model's item comparison IS the translated `valuediff_msg` (for every well-formed
+    expectation and every signature value, the empty group included) -/
+theorem translated_valuediff_is_model (e : Expect) (v : Option Nat)
+    (x : Option (Nat ⊕ (Option Nat × Option Nat))) (h : encExpect e = some x) :
+    Gen.Tr.sigValueDiff v x = valueDiff e v := by
+  cases e with
+  | single => cases h; cases v <;> rfl
+  | exact n =>
+    cases h
+    cases v with
+    | none => rfl
+    | some k =>
+      simp only [Gen.Tr.sigValueDiff, valueDiff, bne]
+      by_cases hkn : k = n <;> simp [hkn]
+  | malformed => cases h
+  | range lo hi =>
+    cases h
+    cases v with
+    | none => rfl
+    | some k => cases lo <;> cases hi <;> simp [Gen.Tr.sigValueDiff, valueDiff]
+
+end Edzed.TrTie
